@@ -158,6 +158,16 @@ where
         (_, Err(e)) => job.inconclusive.push(format!("challenge split: {}", e)),
         _ => job.inconclusive.push(format!("no combined-check event (verdict {:?})", res)),
     }
+    // a proof object whose mandatory points are non-identity and whose round count matches is judged by the relations
+    // alone: the verifier must get as far as the combined check (it may not reject it for any other reason)
+    {
+        let reached = arena::with(|a| a.chals.iter().any(|c| c.ctx == "verify" && c.label == "r"));
+        job.check(
+            "an arbitrary proof object with non-identity mandatory points and the right round count reaches the combined check",
+            reached && matches!(res, Ok(()) | Err(R1CSError::VerificationError)),
+            format!("verdict {:?}, batching challenge squeezed: {}", res, reached),
+        );
+    }
     drop(sh);
     // clause (a): identity at a mandatory position is rejected before use (enumerated, concrete)
     let mandatory: Vec<usize> = [0usize, 1, 2, 6, 7, 8, 9, 10].iter().copied().chain((0..2 * k).map(|j| 11 + j)).collect();
@@ -179,6 +189,25 @@ where
         let last_is_combined = evs.len() > before && evs.last().map(|e| e.lin.len() > 1).unwrap_or(false);
         let name = if pos < 11 { POINT_NAMES[pos].to_string() } else if (pos - 11) % 2 == 0 { format!("L{}", (pos - 11) / 2) } else { format!("R{}", (pos - 11) / 2) };
         job.check(&format!("identity at mandatory point {} is rejected before the combined check", name), matches!(res, Err(R1CSError::VerificationError)) && !last_is_combined, format!("{:?}", res));
+    }
+    // the identity in a slot that is NOT mandatory (the second-phase commitments) is no reason to reject: the verifier
+    // gets as far as the combined check, whatever closures are registered
+    for pos in [3usize, 4, 5] {
+        let shr2 = new_shared::<SymA<C>>(shape, &Default::default(), Box::new(SymVals::<C::ScalarField>::new(seed)));
+        {
+            let mut sh2 = shr2.borrow_mut();
+            sh2.is_prover = false;
+            sh2.verifier_commitments = shr.borrow().verifier_commitments.clone();
+        }
+        let mut pv = SymVals::<C::ScalarField>::new(seed ^ 0x7a);
+        let op2 = opaque_proof::<C>(&mut rng, &mut pv, k, k, Some(pos), "°");
+        let ctx = format!("verify_optional_identity{}", pos);
+        arena::set_ctx(&ctx);
+        let mut vt = new_verifier_transcript(shape);
+        let verifier = build_verifier(shape, &shr2, &mut vt);
+        let res = verifier.verify(&op2.proof, &pc, &bp);
+        let squeezed_r = arena::with(|a| a.chals.iter().any(|c| c.ctx == ctx && c.label == "r"));
+        job.check(&format!("the identity at the optional point {} does not stop the verifier before the combined check", POINT_NAMES[pos]), squeezed_r && matches!(res, Ok(()) | Err(R1CSError::VerificationError)), format!("{:?}, reached the combined check: {}", res, squeezed_r));
     }
     // a round count that does not match the padded size is rejected before the combined check
     for kk in 0..=(k + 2) {
